@@ -35,9 +35,11 @@ def build_calls(quick):
     for i, s in enumerate(core):
         d = CORE_TARGETS[i % len(CORE_TARGETS)]
         add("transpile", s, "", d)
+        add("parse_repr", s, "")
         if i % 5 == 0:
             add("tokenize", s, d)
             add("pretty", s, "")
+            add("parse_repr", s, d)
         if i % 7 == 0:
             add("annotate", s, "")
             add("qualify", s, "", "core")
